@@ -181,7 +181,7 @@ def gen_basis(rng, T, tier):
             bt = str(rng.choice(['std', 'discont']))
             deg = _deg(rng, 1 if bt == 'std' else 0, 3)
             return dict(btype=bt, kwargs=dict(degree=deg if bt != 'spline' else 1))
-        if rng.random() < .5:
+        if rng.random() < .5 or bt == 'discont':
             degree = _deg(rng, 1 if bt == 'std' else 0, 3)
         else:
             degree = [_deg(rng, 1 if bt == 'std' else 0, 3) for _ in range(T.nd)]
